@@ -52,6 +52,16 @@ fn same_bytes(spec: &Spec, a: &[u8], b: &[u8]) -> bool {
         Spec::Compound { members } if members.len() == 1 => &members[0],
         s => s,
     };
+    if let Spec::FciOnly(Fci::Fir { .. }) = inner {
+        if a.len() != b.len() || a.len() % 8 != 0 {
+            return false;
+        }
+        let mut ea: Vec<&[u8]> = a.chunks(8).collect();
+        let mut eb: Vec<&[u8]> = b.chunks(8).collect();
+        ea.sort();
+        eb.sort();
+        return ea == eb;
+    }
     if let Spec::Fb { fci: Fci::Fir { .. }, padding, .. } = inner {
         if a.len() != b.len() || a.len() < 12 {
             return false;
@@ -129,6 +139,13 @@ fn append_check(spec: &Spec, key: u64, applicable: &mut bool) -> Option<(String,
                 e.push(img(&mk(vec![*en]))?.get(12..16)?.to_vec());
             }
             (img(&mk(entries.clone()))?, 12, e)
+        }
+        Spec::FciOnly(Fci::Sli { entries }) if entries.len() >= 2 => {
+            let mut e = Vec::new();
+            for en in entries {
+                e.push(img(&Spec::FciOnly(Fci::Sli { entries: vec![*en] }))?);
+            }
+            (img(spec)?, 0, e)
         }
         _ => return None,
     };
@@ -294,6 +311,13 @@ fn shape_of(p: &Plan) -> String {
         Plan::Chunk(c) => s.push_str(&format!("chunk{}", c.items.len().min(4))),
         Plan::Item(i) => s.push_str(&format!("item{:?}{}", i.form, i.steps.len())),
         Plan::Third { .. } => s.push_str("third"),
+        Plan::Fci(f) => s.push_str(&format!("fci:{}", match f {
+            FciPlan::Nack(v) => format!("nack{}", v.len().min(6)),
+            FciPlan::Fir(v) => format!("fir{}", v.len().min(6)),
+            FciPlan::Sli(v) => format!("sli{}", v.len().min(6)),
+            FciPlan::Rpsi(v) => format!("rpsi{}", v.len().min(6)),
+            FciPlan::Pli => "pli".to_string(),
+        })),
     }
     s
 }
@@ -324,10 +348,10 @@ impl Check for C20 {
         let mut hr = Rng::derive(seed, "hash");
         let gcfg = GenCfg { wrappers: false, third: false, ..GenCfg::draw(&mut wl) };
         let spec = if gcfg.parts && wl.chance(1, 10) {
-            if wl.chance(1, 2) {
-                Spec::ChunkOnly(gen_chunk(&mut wl, &gcfg))
-            } else {
-                Spec::ItemOnly(gen_item(&mut wl, &gcfg))
+            match wl.below(3) {
+                0 => Spec::ChunkOnly(gen_chunk(&mut wl, &gcfg)),
+                1 => Spec::ItemOnly(gen_item(&mut wl, &gcfg)),
+                _ => Spec::FciOnly(gen_fci(&mut wl, &gcfg)),
             }
         } else {
             gen_packet(&mut wl, &gcfg)
